@@ -134,14 +134,16 @@ ENTRY = {
     'act_two.accuracy': [dict(Y1='tt:n', Y2='tt:n'),
                          dict(Y1='f[m,n]', Y2='f[m,n]')],
     'act_two.add': [dict(Y1='tt:n', Y2='tt:n'), dict(Y1='tt:n', Y2='num:c'),
-                    dict(Y1='num:c', Y2='tt:n')],
+                    dict(Y1='num:c', Y2='tt:n'),
+                    dict(Y1='tti:n', Y2='tt:n'), dict(Y1='tti:n', Y2='num:c')],
     'act_two.mul': [dict(Y1='tt:n', Y2='tt:n'), dict(Y1='tt:n', Y2='num:c'),
                     dict(Y1='num:c', Y2='tt:n')],
     'act_two.mul_scalar': [dict(Y1='tt:n', Y2='tt:n'),
                            dict(Y1='tt:n', Y2='tt:n', use_stab=L(True))],
     'act_two.outer': [dict(Y1='tt', Y2='tt')],
     'act_two.sub': [dict(Y1='tt:n', Y2='tt:n'), dict(Y1='tt:n', Y2='num:c'),
-                    dict(Y1='num:c', Y2='tt:n')],
+                    dict(Y1='num:c', Y2='tt:n'),
+                    dict(Y1='tti:n', Y2='tt:n')],
     'als.als': [dict(I_trn='I[m,d]', y_trn='f[m]', Y0='tt', info='dict'),
                 dict(I_trn='I[m,d]', y_trn='f[m]', Y0='tt', w='f[m]',
                      I_vld='I[mv,d]', y_vld='f[mv]', cb='cb'),
@@ -205,7 +207,8 @@ ENTRY = {
     'func.func_int': [dict(Y='tt'), dict(Y='tt', kind=L('sin'))],
     'func.func_int_general': [dict(Y='tt:n', X='f[nx]', basis_func='cb'),
                               dict(Y='tt:n', X='f[d,nx]', basis_func='cb')],
-    'func.func_sum': [dict(A='tt', a='num', b='num'),
+    'func.func_sum': [dict(A='tt', a='len:L', b='len:L'),
+                      dict(A='tt', a='num', b='num'),
                       dict(A='tt', a='fvec', b='fvec'),
                       dict(A='tt', a='num', b='num', kind=L('sin'))],
     'func_full.func_get_full': [dict(X='f[m,d]', A='dense', a='num', b='num')],
@@ -213,7 +216,8 @@ ENTRY = {
                                  dict(A='dense', a='num', b='num',
                                       m='int:mnew')],
     'func_full.func_int_full': [dict(Y='dense')],
-    'func_full.func_sum_full': [dict(A='dense', a='num', b='num')],
+    'func_full.func_sum_full': [dict(A='dense', a='num', b='num'),
+                                dict(A='dense', a='len:L', b='len:L')],
     'grid.grid_flat': [dict(n='shape'), dict(n='int:n')],
     'grid.grid_prep_opt': [dict(opt='num', d=L(3)), dict(opt='fvec'),
                            dict(opt='fvec', reps='int:m'),
@@ -247,7 +251,7 @@ ENTRY = {
     'maxvol.maxvol_rect': [dict(A='f[n,r]'),
                            dict(A='f[n,r]', dr_min='int:dr1', dr_max='int:dr2')],
     'optima.optima_qtt': [dict(Y='tt')],
-    'optima.optima_tt': [dict(Y='tt')],
+    'optima.optima_tt': [dict(Y='tt'), dict(Y='tti:Y.n')],
     'optima.optima_tt_beam': [dict(Y='tt'), dict(Y='tt', l2r=L(False)),
                               dict(Y='tt', ret_all=L(True))],
     'optima.optima_tt_max': [dict(Y='tt')],
@@ -319,6 +323,7 @@ ENTRY = {
                                      is_eigh=L(False)),
                                 dict(Y='tt', is_eigh=L(False)),
                                 dict(Y='tt', orth=L(False)),
+                                dict(Y='tt', e='rel', r='npint:rmax'),
                                 dict(Y='tt1', e='rel', r='int:rmax'),
                                 dict(Y='tt1', e='rel', r='int:rmax',
                                      is_eigh=L(False))],
@@ -356,6 +361,9 @@ def build(spec, name, d, label=True):
         return tt(name, d, label=label)
     if spec.startswith('tt:'):
         return tt(name, d, nsym=spec[3:], label=label)
+    if spec.startswith('tti:'):
+        # a TT-tensor whose cores are stored with an integer dtype
+        return tt(name, d, nsym=spec[4:], label=label, dt='i')
     if spec.startswith('ttm'):
         t = tt(name, d, label=label)
         for c in t.items:
@@ -441,6 +449,11 @@ def build(spec, name, d, label=True):
     if spec.startswith('int:'):
         v = INT(sym(spec[4:]))
         v.note = 'pyint'
+        return v
+    if spec.startswith('npint:'):
+        # a NumPy integer scalar (np.int64): not an instance of int / float
+        v = INT(sym(spec[6:]))
+        v.note = 'npint'
         return v
     if spec == 'seed':
         return seed()
